@@ -37,13 +37,28 @@ CHECK_FN = "Chk_C20.check_case"
 HEADER = "From Ropt Require Import Model.Pipe Gen.Generated."
 SHARD_SIZE = 8
 PARALLEL = True
-CASE_TIMEOUT = 150
+CASE_TIMEOUT = 420
 EXHAUSTIVE = {"quick": False, "thorough": False}
 
 WRAPPER_DIR = Path(__file__).resolve().parent.parent / "c20_wrapper"
 WORK = Path(__file__).resolve().parent.parent.parent / ".work"
 NAN_BITS = 0x7FF8000000000000
-EXTRA_WALL_S = 20          # the run must end within _PROCESS_TIMEOUT + 20 s (DESIGN C20)
+EXTRA_WALL_S = 90          # the run must end within _PROCESS_TIMEOUT + 90 s (Chk_C20.wall_slack; the machine may be heavily
+                           # loaded: an external run of 2.5 s was seen to take 13 s at load 140; a hang is unbounded)
+WRAPPER_FAULTS = ("kill", "rkill", "exit", "raise")     # injected by the PATH wrapper inside the child
+# death by signal: name -> number (the model's DieAfter / DieOnAnswer / DieWaiting carry the number; nothing depends on it)
+SIGNALS = {"TERM": 15, "KILL": 9, "INT": 2, "HUP": 1, "ABRT": 6, "SEGV": 11}
+SIG_ORDER = ("TERM", "KILL", "INT", "HUP", "ABRT", "SEGV")
+SIG_CYCLE = ("TERM", "KILL", "INT", "TERM", "HUP", "ABRT", "TERM", "SEGV")   # SIGTERM (plain `kill`, schedulers) most often
+# str() of the exception the wrapper's raise:j:<kind> fault raises in the child (same text as in the wrapper)
+ODD_MESSAGE = 'verif: "odd" \\ message\n--READY--\nwith the delimiter, a tab\t and {"error": null}'
+RAISE_MESSAGES = {"msg": "verif: injected optimizer failure", "empty": "", "assert": "", "zero": "0", "odd": ODD_MESSAGE}
+RAISE_KINDS = ("empty", "msg", "assert", "zero", "odd")
+# FINDING (reported to the lead, not yet in known_findings.json): a message larger than the pipe capacity (64 KiB: the
+# config of ~1700+ variables, a gradient answer of ~3300 floats) is written only partly by the non-blocking os.write in
+# _JSONPipeCommunicator.write, whose result is ignored -> the external run hangs for ever with a live child.  The
+# stream that exercises it stays disabled until the lead decides.
+BIG_MESSAGES = False
 INPROC_DEADLINE_S = 60
 
 
@@ -144,7 +159,7 @@ def build_config(case: dict, external: bool) -> dict:
     method = case["method"]
     cfg: dict = {
         "variables": {"initial_values": list(case["init"])},
-        "optimizer": {"method": ("external/" + method) if external else method},
+        "optimizer": {"method": ("external/" if external else "") + ("scipy/" if case.get("qualified") else "") + method},
         "objectives": {"weights": list(case["obj_weights"])},
         "realizations": {"weights": list(case["real_weights"])},
         "gradient": {"number_of_perturbations": case.get("pert", 3),
@@ -193,6 +208,7 @@ class _Recorder:
         self.current: list[list[int]] | None = None
         self.ncalls = 0          # calls of the user's evaluator
         self.nstart = 0          # START_EVALUATION events
+        self.nfinished = 0       # FINISHED_EVALUATION events
 
     def effect(self, e: list[int]) -> None:
         (self.current if self.current is not None else self.stray).append(e)
@@ -212,6 +228,8 @@ class _Recorder:
         if case.get("eval_raise_at") is not None and j == case["eval_raise_at"]:
             self.effect(eff + [-9])
             msg = "verif: the user's evaluator failed"
+            if case.get("eval_raise_kind") == "base":
+                raise VerifInterrupt(msg)          # not an Exception: what Ctrl-C / sys.exit() in the evaluator are
             raise ValueError(msg)
         x = np.asarray(variables, dtype=np.float64)
         real = np.asarray(context.realizations, dtype=np.float64)[:, None]
@@ -239,19 +257,30 @@ class _Recorder:
         j = self.nstart
         self.nstart += 1
         self.effect([10, j])
-        if self.case.get("abort_at") is not None and j == self.case["abort_at"]:
-            raise OptimizationAborted(exit_code=OptimizerExitCode.USER_ABORT)
+        if self.case.get("abort_at") is not None and j == self.case["abort_at"] and not self.case.get("abort_late"):
+            raise OptimizationAborted(exit_code=OptimizerExitCode(int(self.case.get("abort_code", 4))))
 
     def on_finished(self, event) -> None:
+        from ropt.enums import OptimizerExitCode
+        from ropt.exceptions import OptimizationAborted
         from ropt.results import FunctionResults
+        j = self.nfinished
+        self.nfinished += 1
         for item in event.data.get("results", ()):
             out = [11, 0 if isinstance(item, FunctionResults) else 1]
             _fingerprint(item, out)
             self.effect(out)
+        if self.case.get("abort_at") is not None and j == self.case["abort_at"] and self.case.get("abort_late"):
+            # the user aborts when the results of evaluation j are reported (after the evaluation, not before it)
+            raise OptimizationAborted(exit_code=OptimizerExitCode(int(self.case.get("abort_code", 4))))
 
 
 class _Hang(BaseException):
     pass
+
+
+class VerifInterrupt(BaseException):
+    """Raised by the user's evaluator in `eval_raise_kind = base` cases (a BaseException, like KeyboardInterrupt)."""
 
 
 def _with_deadline(seconds: float, fn):
@@ -294,7 +323,7 @@ def _run_once(case: dict, external: bool, deadline: float) -> dict:
             code = exc.exit_code
             entry["res"] = ["abort", int(getattr(code, "value", -1))]
             raise
-        except Exception as exc:
+        except (Exception, VerifInterrupt) as exc:
             entry["res"] = ["raise", type(exc).__name__]
             raise
         finally:
@@ -339,7 +368,7 @@ def _run_once(case: dict, external: bool, deadline: float) -> dict:
     except _Hang:
         hang = True
         out = ["hang"]
-    except Exception as exc:  # noqa: BLE001 - the observation is the exception class
+    except (Exception, VerifInterrupt) as exc:  # noqa: BLE001 - the observation is the exception class
         out = ["raise", type(exc).__name__, str(exc)[:200]]
     finally:
         om.EnsembleOptimizer._optimizer_callback = orig
@@ -367,6 +396,39 @@ def _pid_alive(pid: int) -> bool:
         return state not in ("Z", "X")
     except OSError:
         return False
+
+
+def _wait_child_logged(clog: Path, k: int, patience: float = 30.0) -> None:
+    """The child logs a message right after writing it; wait until its k-th "w" line is there (it is killed next)."""
+    t0 = time.time()
+    while time.time() - t0 < patience:
+        try:
+            if sum(1 for line in clog.read_text().splitlines() if line.startswith('{"w"')) >= k:
+                return
+        except OSError:
+            pass
+        time.sleep(0.005)
+
+
+def _kill_and_wait(pidfile: Path, sig_name: str, patience: float = 60.0) -> bool:
+    """Send the signal to the child (pid from the wrapper's pid file; the child is a child of this process) and
+    wait until the WHOLE process is gone -- waitid(WNOWAIT) reports it only after its last thread has exited and its
+    descriptors are closed (a zombie group leader in /proc can still have live threads holding the FIFO open) --
+    without reaping it: that is left to the parent's Popen.  False when it is still alive after `patience` seconds."""
+    try:
+        pid = int(pidfile.read_text().strip())
+        os.kill(pid, signal.SIGABRT if sig_name == "ABRT" else getattr(signal, "SIG" + sig_name))
+    except (OSError, ValueError):
+        return False
+    t0 = time.time()
+    while time.time() - t0 < patience:
+        try:
+            if os.waitid(os.P_PID, pid, os.WEXITED | os.WNOWAIT | os.WNOHANG) is not None:
+                return True
+        except ChildProcessError:
+            return True
+        time.sleep(0.005)
+    return False
 
 
 def _read_wire(path: Path) -> list:
@@ -427,15 +489,25 @@ def run_impl(case: dict) -> dict:
     fifo_root.mkdir(parents=True)
     pidfile, clog, plog = scratch / "child.pid", scratch / "child.log", scratch / "parent.log"
     saved_env = {k: os.environ.get(k) for k in
-                 ("PATH", "VERIF_C20_SRC", "VERIF_C20_PIDFILE", "VERIF_C20_LOG", "VERIF_C20_FAULT")}
+                 ("PATH", "VERIF_C20_SRC", "VERIF_C20_PIDFILE", "VERIF_C20_LOG", "VERIF_C20_FAULT", "VERIF_C20_STDERR")}
     saved_tmp = tempfile.tempdir
     orig_read, orig_write = ext._JSONPipeCommunicator.read, ext._JSONPipeCommunicator.write
     plog_fd = os.open(plog, os.O_WRONLY | os.O_CREAT | os.O_APPEND, 0o600)
+
+    nread = [0]
+    wfault = {"fired": False, "dead": False}
 
     def p_read(self):
         data = orig_read(self)
         if data is not None:
             os.write(plog_fd, (json.dumps({"r": bitify(data)}) + "\n").encode())
+            nread[0] += 1
+            if fault[0] == "wkill" and nread[0] == int(fault[1]) and not wfault["fired"]:
+                # the child is blocked in _request, waiting for the answer to the message just read:
+                # it is killed now, from outside, and is dead before the parent goes on
+                wfault["fired"] = True
+                _wait_child_logged(clog, nread[0])
+                wfault["dead"] = _kill_and_wait(pidfile, fault[2] if len(fault) > 2 else "KILL")
         return data
 
     def p_write(self, data):
@@ -445,13 +517,17 @@ def run_impl(case: dict) -> dict:
         return ok
 
     pid = None
+    fault = list(case.get("fault") or ["none"])
     try:
         os.environ["PATH"] = str(WRAPPER_DIR) + os.pathsep + (saved_env["PATH"] or "")
         os.environ["VERIF_C20_SRC"] = str(REPO / "src")
         os.environ["VERIF_C20_PIDFILE"] = str(pidfile)
         os.environ["VERIF_C20_LOG"] = str(clog)
-        fault = case.get("fault") or ["none"]
-        os.environ["VERIF_C20_FAULT"] = ":".join(str(v) for v in fault) if fault[0] != "none" else ""
+        if fault[0] != "none":
+            os.environ["VERIF_C20_STDERR"] = str(scratch / "child.err")
+        else:
+            os.environ.pop("VERIF_C20_STDERR", None)
+        os.environ["VERIF_C20_FAULT"] = ":".join(str(v) for v in fault) if fault[0] in WRAPPER_FAULTS else ""
         tempfile.tempdir = str(fifo_root)
         ext._JSONPipeCommunicator.read = p_read
         ext._JSONPipeCommunicator.write = p_write
@@ -474,7 +550,8 @@ def run_impl(case: dict) -> dict:
             "child_started": started, "child_alive": bool(alive), "fifo_left": leftovers,
             "pwire": _fold_config(_read_wire(plog), "r", "w"),
             "cwire": _fold_config([m for m in cw_all if m[0] in ("r", "w")], "w", "r"),
-            "fault_fired": any(m[0] == "fault" for m in cw_all),
+            "fault_fired": any(m[0] == "fault" for m in cw_all) or wfault["fired"],
+            "wkill_dead": wfault["dead"],
             "wire_broken": any(m[0] not in ("r", "w", "fault") for m in cw_all),
             "limit_ms": int(limit * 1000),
             "after_ms": int((time.time() - t_end) * 1000),
@@ -618,14 +695,29 @@ def _end_of(inproc: dict) -> list:
     return ["stop"]
 
 
+def _sig(f: list) -> str:
+    name = f[2] if len(f) > 2 else "KILL"
+    return f"{int(SIGNALS[name])}%positive"
+
+
+def raise_message(f: list) -> str:
+    return RAISE_MESSAGES[f[2] if len(f) > 2 else "msg"]
+
+
 def _fault_terms(case: dict) -> tuple[str, str]:
     f = case.get("fault") or ["none"]
     if f[0] == "kill":
-        return f"(DieAfter {cq.nat(f[1])})", "None"
+        return f"(DieAfter {cq.nat(f[1])} {_sig(f)})", "None"
+    if f[0] == "rkill":
+        return f"(DieOnAnswer {cq.nat(f[1])} {_sig(f)})", "None"
+    if f[0] == "wkill":
+        return f"(DieWaiting {cq.nat(f[1])} {_sig(f)})", "None"
     if f[0] == "exit":
         return f"(ExitAfter {cq.nat(f[1])} {int(f[2])})", "None"
     if f[0] == "raise":
-        return "NoFault", f"(Some {cq.nat(f[1])})"
+        return "NoFault", f"(Some ({cq.nat(f[1])}, {cq.s(_clean(raise_message(f)))}))"
+    if f[0] != "none":
+        raise ValueError(f"unknown fault {f!r}")
     return "NoFault", "None"
 
 
@@ -735,6 +827,8 @@ def features(case: dict, obs: dict) -> dict:
     return {
         "method": case["method"],
         "fault": (case.get("fault") or ["none"])[0],
+        "signal": (lambda f: (f[2] if len(f) > 2 else "KILL") if f[0] in ("kill", "rkill", "wkill") else "-")(case.get("fault") or ["none"]),
+        "raise_kind": (lambda f: (f[2] if len(f) > 2 else "msg") if f[0] == "raise" else "-")(case.get("fault") or ["none"]),
         "fault_fired": e["fault_fired"],
         "callbacks": "0" if n == 0 else "1-4" if n <= 4 else "5-12" if n <= 12 else "13+",
         "inproc_outcome": i["out"][0] + (":" + str(i["out"][1]) if i["out"][0] != "hang" else ""),
@@ -744,7 +838,12 @@ def features(case: dict, obs: dict) -> dict:
         "explicit_start": case.get("start") is not None,
         "nan": bool(case.get("nan")),
         "abort_at": case.get("abort_at") is not None,
+        "abort_code": case.get("abort_code", 4) if case.get("abort_at") is not None else "-",
+        "abort_late": bool(case.get("abort_late")) if case.get("abort_at") is not None else "-",
         "eval_raise_at": case.get("eval_raise_at") is not None,
+        "eval_raise_kind": case.get("eval_raise_kind", "exception") if case.get("eval_raise_at") is not None else "-",
+        "qualified_name": bool(case.get("qualified")),
+        "one_sided_bounds": any(v is None for key in ("lower", "upper") for v in (case.get(key) or [])),
         "parallel": bool(case.get("parallel")),
     }
 
@@ -785,6 +884,12 @@ def rand_base(rng, method: str | None = None, flavour: str | None = None) -> dic
     if bounded and method != "nelder-mead" or method == "differential_evolution":
         case["lower"] = [-1.0 - _dy(rng, 0, 4) for _ in range(nvar)]
         case["upper"] = [1.0 + _dy(rng, 0, 4) for _ in range(nvar)]
+        if method != "differential_evolution" and rng.random() < 0.4:
+            # one-sided bounds: an infinity inside the configuration message (JSON `Infinity`)
+            side = rng.choice(["lower", "upper"])
+            case[side] = [None if rng.random() < 0.6 else v for v in case[side]]
+    if rng.random() < 0.25:
+        case["qualified"] = True          # external/scipy/<method> against scipy/<method>
     if method in ("slsqp", "l-bfgs-b") and nvar == 3 and rng.random() < 0.5:
         mask = [True, True, True]
         mask[rng.randrange(3)] = False
@@ -829,8 +934,12 @@ def rand_base(rng, method: str | None = None, flavour: str | None = None) -> dic
             case["min_success"] = 0       # DE allows NaN: all-failed evaluations become +inf
     elif flavour == "abort":
         case["abort_at"] = rng.randint(0, 3)
+        case["abort_code"] = rng.choice([4, 4, 0, 1, 3])      # USER_ABORT, UNKNOWN (0: falsy), TOO_FEW, NESTED_FAILED
+        case["abort_late"] = rng.random() < 0.35              # raised when the results are reported, not before
     elif flavour == "evraise":
         case["eval_raise_at"] = rng.randint(0, 3)
+        if rng.random() < 0.35:
+            case["eval_raise_kind"] = "base"                  # a BaseException (what Ctrl-C in the evaluator is)
     elif flavour == "opterr" and method in ("slsqp", "l-bfgs-b"):
         case["options"] = {"ftol": "foo"}
     return case
@@ -848,13 +957,24 @@ def _probe_callbacks(case: dict) -> int:
         return 2 * int(case.get("max_functions") or 4) + 1
 
 
-def _crash_cases(case: dict, ks, codes=(), raises=()):
-    for k in ks:
-        yield {**case, "fault": ["kill", int(k)]}
+def _crash_cases(case: dict, ks, codes=(), raises=(), rks=(), wks=()):
+    """ks / rks / wks: (k, signal name) -- death when about to write message k / right after the answer to message k /
+    while waiting for the answer to message k; codes: (k, exit code); raises: (j, kind of the raised exception)."""
+    for k, sig in ks:
+        yield {**case, "fault": ["kill", int(k), sig]}
+    for k, sig in rks:
+        yield {**case, "fault": ["rkill", int(k), sig]}
+    for k, sig in wks:
+        yield {**case, "fault": ["wkill", int(k), sig]}
     for k, code in codes:
         yield {**case, "fault": ["exit", int(k), int(code)]}
-    for j in raises:
-        yield {**case, "fault": ["raise", int(j)]}
+    for j, kind in raises:
+        yield {**case, "fault": ["raise", int(j), kind]}
+
+
+def _with_signals(ks, offset: int = 0):
+    """Pair crash points with signals: SIGTERM first, then the others in turn."""
+    return [(k, SIG_CYCLE[(i + 3 * offset) % len(SIG_CYCLE)]) for i, k in enumerate(ks)]
 
 
 def long_base(rng, method: str = "slsqp") -> dict:
@@ -868,6 +988,17 @@ def long_base(rng, method: str = "slsqp") -> dict:
     return case
 
 
+def big_base(rng) -> dict:
+    """A configuration whose config message (and gradient answers) exceed the pipe capacity of 64 KiB."""
+    case = rand_base(rng, "l-bfgs-b", "plain")
+    nvar = 3000
+    case.update({"init": [_dy(rng, -4, 4) for _ in range(nvar)], "centers": [[0.5] * nvar for _ in case["obj_weights"]],
+                 "pert": 1, "max_functions": 2, "big": True})
+    for key in ("lower", "upper", "mask", "start", "options"):
+        case.pop(key, None)
+    return case
+
+
 def gen_cases(tier, rng):
     quick = tier == "quick"
     # (a) equality pairs: every method, every flavour
@@ -878,56 +1009,76 @@ def gen_cases(tier, rng):
              ("differential_evolution", "toofew")]
     if not quick:
         pairs = pairs * 2 + [(rng.choice(METHODS), rng.choice(flavours)) for _ in range(60)]
-    bases = []
     for m, f in pairs:
-        c = rand_base(rng, m, f)
-        bases.append(c)
-        yield c
-    # (b) crash points: child killed / exiting / raising after k messages, on plain and on faulty runs
+        yield rand_base(rng, m, f)
+    if BIG_MESSAGES:
+        yield big_base(rng)
+    # (b) crash points on plain and on faulty runs: the child dies by a signal (SIGTERM, SIGKILL, SIGINT, SIGHUP,
+    #     os.abort(), SIGSEGV) when it is about to write message k, right after the answer to message k, or while it
+    #     waits for the answer to message k; it exits with a code; the optimizer's j-th callback raises in the child
+    #     (with a message, with an EMPTY message, ...)
     n_crash_bases = 3 if quick else 10
     for b in range(n_crash_bases):
         base = rand_base(rng, METHODS[b % len(METHODS)], rng.choice(["plain", "plain", "abort", "evraise", "nan"]))
         n = _probe_callbacks(base)
         total = n + 2                                        # config, initial_values, callbacks (+ error)
         ks = list(range(0, total + 1))
+        inner = list(range(1, total + 1))
         if quick:
             ks = sorted(set([0, 1, 2, total - 1, total] + rng.sample(ks, min(3, len(ks)))))
             ks = [k for k in ks if 0 <= k <= total][:7]
+            rks = sorted(set([total, rng.choice(inner)]))
+            wks = sorted(set([rng.choice([1, 2]), rng.choice(inner)]))
+        else:
+            rks, wks = inner, inner
         codes = [(rng.randint(0, total - 1), rng.choice([1, 2, 3, 120, 255]))
                  for _ in range(2 if quick else 5)]
-        raises = rng.sample(range(max(1, n)), min(2 if quick else 4, max(1, n)))
-        yield from _crash_cases(base, ks, codes, raises)
-    # (c) thorough: every crash point / exit point / raising callback / raising evaluation of a ~12-callback run
+        js = rng.sample(range(max(1, n)), min(2 if quick else 4, max(1, n)))
+        raises = [(j, RAISE_KINDS[(i + b) % len(RAISE_KINDS)] if i else "empty") for i, j in enumerate(js)]
+        yield from _crash_cases(base, _with_signals(ks, b), codes, raises,
+                                _with_signals(rks, b), _with_signals(wks, b + 1))
+    # (c) thorough: every crash point (three kinds of moment, SIGTERM and one more signal each) / exit point / raising
+    #     callback (every kind of message) / raising evaluation / abort point of a ~12-callback run
     if not quick:
-        for method in ("slsqp", "l-bfgs-b", "nelder-mead"):
+        for bi, method in enumerate(("slsqp", "l-bfgs-b", "nelder-mead")):
             base = long_base(rng, method)
             n = _probe_callbacks(base)
             total = n + 2
             yield base
-            yield from _crash_cases(base, range(0, total + 1),
-                                    [(k, 3) for k in range(0, total)], range(0, n))
+            every = list(range(0, total + 1))
+            inner = list(range(1, total + 1))
+            term = lambda ks: [(k, "TERM") for k in ks]                                       # noqa: E731
+            other = lambda ks, o: [(k, SIG_ORDER[1 + (i + o) % (len(SIG_ORDER) - 1)]) for i, k in enumerate(ks)]  # noqa: E731
+            yield from _crash_cases(base, term(every) + other(every, bi), [(k, 3) for k in range(0, total)],
+                                    [(j, RAISE_KINDS[(j + bi) % len(RAISE_KINDS)]) for j in range(0, n)],
+                                    term(inner) + other(inner, bi + 1), term(inner) + other(inner, bi + 2))
             for j in range(0, n + 1):
-                yield {**base, "eval_raise_at": j, "flavour": "evraise"}
+                yield {**base, "eval_raise_at": j, "flavour": "evraise",
+                       **({"eval_raise_kind": "base"} if (j + bi) % 2 else {})}
             for j in range(0, n + 1):
-                yield {**base, "abort_at": j, "flavour": "abort"}
+                yield {**base, "abort_at": j, "flavour": "abort", "abort_late": bool((j + bi) % 2),
+                       "abort_code": [4, 0, 1, 3][(j + bi) % 4]}
         for _ in range(80):
             base = rand_base(rng)
             n = _probe_callbacks(base)
-            kind = rng.choice(["kill", "kill", "exit", "raise"])
-            if kind == "kill":
-                yield {**base, "fault": ["kill", rng.randint(0, n + 2)]}
+            kind = rng.choice(["kill", "rkill", "wkill", "exit", "raise"])
+            if kind in ("kill", "rkill", "wkill"):
+                yield {**base, "fault": [kind, rng.randint(0 if kind == "kill" else 1, n + 2), rng.choice(SIG_ORDER)]}
             elif kind == "exit":
                 yield {**base, "fault": ["exit", rng.randint(0, n + 2), rng.choice([1, 2, 3, 9, 120, 255])]}
             else:
-                yield {**base, "fault": ["raise", rng.randint(0, max(0, n - 1))]}
+                yield {**base, "fault": ["raise", rng.randint(0, max(0, n - 1)), rng.choice(RAISE_KINDS)]}
 
 
 def shrink(case: dict):
     """A few simpler candidates (every candidate costs a real external run)."""
-    if case.get("fault", ["none"])[0] != "none" and case["fault"][0] in ("kill", "exit") and case["fault"][1] > 0:
-        yield {**case, "fault": [case["fault"][0], 0] + list(case["fault"][2:])}
+    f = case.get("fault") or ["none"]
+    if f[0] in ("kill", "exit") and f[1] > 0:
+        yield {**case, "fault": [f[0], 0] + list(f[2:])}
+    if f[0] in ("rkill", "wkill") and f[1] > 1:
+        yield {**case, "fault": [f[0], 1] + list(f[2:])}
     simple = {k: v for k, v in case.items() if k not in ("ncon", "con_coef", "con_lower", "con_upper", "lin", "mask",
-                                                         "nan", "min_success", "speculative", "split")}
+                                                         "nan", "min_success", "speculative", "split", "qualified")}
     if simple != case:
         yield simple
 
@@ -939,9 +1090,11 @@ def search(rng, case):
         return
     yield {**case, "fault": ["none"]}
     for k in range(0, 6):
-        yield {**case, "fault": ["kill", k]}
+        yield {**case, "fault": ["kill", k, SIG_ORDER[k % len(SIG_ORDER)]]}
+    yield {**case, "fault": ["rkill", 3, "TERM"]}
+    yield {**case, "fault": ["wkill", 3, "TERM"]}
     yield {**case, "fault": ["exit", 2, 3]}
-    yield {**case, "fault": ["raise", 0]}
+    yield {**case, "fault": ["raise", 0, "empty"]}
 
 
 RULE = ("every case = one in-process run and one run through external/<method> (real child process started through the "
